@@ -1,6 +1,6 @@
 (* The C11 monitor accepts every trace of the model. *)
 From SC Require Import Lib.Prelude Lib.Int Lib.Host Model.Nft Run.NftCommon Proofs.NftMaps Proofs.NftFrame
-  Proofs.NftInv Proofs.NftCons Proofs.NftOwn Proofs.NftSim Run.C11.
+  Proofs.NftInv Proofs.NftCons Proofs.NftOwn Proofs.NftSim Proofs.NftScope Run.C11.
 Local Open Scope N_scope.
 
 Lemma oaddr_eqb_refl a : oaddr_eqb a a = true.
@@ -21,16 +21,18 @@ Lemma c11_legal_model fl c s g cl s' r :
 Proof.
   intros [Hc Ho] He. pose proof (own_of fl c s g Ho) as Hown. apply exec_ok in He.
   destruct cl; cbn [exec_spec] in He; cbn [c11_legal]; try reflexivity.
-  - destruct He as (Ha&Hw&_). unfold may_move. rewrite Ha, <- Hown, Hw, oaddr_eqb_refl, N.eqb_refl. reflexivity.
-  - destruct He as (Ha&Hs&Hw&_). unfold may_move. rewrite Ha, <- Hown, Hw, oaddr_eqb_refl. cbn [andb].
+  - destruct He as (_&->). reflexivity.
+  - destruct He as (_&->&_). reflexivity.
+  - destruct He as (Ha&Hw&->&_). unfold may_move. rewrite Ha, <- Hown, Hw, oaddr_eqb_refl, N.eqb_refl. reflexivity.
+  - destruct He as (Ha&Hs&Hw&->&_). unfold may_move. rewrite Ha, <- Hown, Hw, oaddr_eqb_refl. cbn [andb is_none].
     apply (spender_ok_ghost s g); assumption.
-  - destruct He as (Ha&Hw&_). unfold may_move. rewrite Ha, <- Hown, Hw, oaddr_eqb_refl, N.eqb_refl. reflexivity.
-  - destruct He as (Ha&Hs&Hw&_). unfold may_move. rewrite Ha, <- Hown, Hw, oaddr_eqb_refl. cbn [andb].
+  - destruct He as (Ha&Hw&->&_). unfold may_move. rewrite Ha, <- Hown, Hw, oaddr_eqb_refl, N.eqb_refl. reflexivity.
+  - destruct He as (Ha&Hs&Hw&->&_). unfold may_move. rewrite Ha, <- Hown, Hw, oaddr_eqb_refl. cbn [andb is_none].
     apply (spender_ok_ghost s g); assumption.
-  - destruct He as (Ha&_&o&Hw&Hor&_). rewrite Ha, <- Hown, Hw. cbn [andb].
+  - destruct He as (Ha&->&o&Hw&Hor&_). rewrite Ha, <- Hown, Hw. cbn [andb is_none].
     destruct Hor as [->|H]; [rewrite N.eqb_refl; reflexivity|].
     destruct Hc as (Hck&_&_&Hop). rewrite <- (is_approved_for_all_live s g Hck Hop), H. apply orb_true_r.
-  - destruct He as (Ha&_). exact Ha.
+  - destruct He as (Ha&->&_). cbn [is_none andb]. exact Ha.
 Qed.
 
 Lemma c11_obs_model fl c s g sh : Sim fl s g -> c11_obs_ok g (model_obs fl c s sh) = true.
@@ -43,20 +45,45 @@ Proof.
   - rewrite (is_approved_for_all_live s g Hc Ho). destruct (live_oper g (fst (fst p)) (snd (fst p))); reflexivity.
 Qed.
 
-Lemma mon_model_steps fl c l : forall s g i, Sim fl s g -> mon_from g (model_steps fl c s l) i = 0.
+(* hypothesis of the acceptance theorem: the QUERIES are well formed - exactly the shape test of the monitor,
+   evaluated on the query shapes along the run; nothing is asked once the run has left the quantifier *)
+Fixpoint wf_run (fl : flavour) (c : cfg) (s : state) (g : ghost) (l : list (call * obs)) : bool :=
+  match l with
+  | [] => true
+  | (cl, sh) :: r =>
+      let s' := fst (step fl c s cl) in
+      let o := snd (step fl c s cl) in
+      let g' := ghost_step g cl o in
+      match mint_scope fl g cl o with
+      | OutOfScope => true
+      | _ => c11_shape_ok g' cl o (model_obs fl c s' sh) && wf_run fl c s' g' r
+      end
+  end.
+
+Lemma mon_model_steps fl c l : forall s g i, Sim fl s g -> wf_run fl c s g l = true ->
+  mon_from false fl g (model_steps fl c s l) i = 0.
 Proof.
-  induction l as [|[cl sh] r IH]; intros s g i Hs; cbn [model_steps mon_from]; [reflexivity|].
+  induction l as [|[cl sh] r IH]; intros s g i Hs Hwf; cbn [model_steps mon_from]; [reflexivity|].
+  cbn [wf_run] in Hwf.
   pose proof (sim_step fl c s g cl Hs) as Hs'.
   destruct (step_cases fl c s cl) as [(s'&rr&He&Est)|[He Est]]; rewrite Est in *; cbn [fst snd] in *;
-    cbn [mon_from c11_step_ok fst snd].
-  - rewrite (c11_legal_model fl c s g cl s' rr Hs He). rewrite (c11_obs_model fl c s' _ sh Hs').
-    cbn [andb]. apply IH. exact Hs'.
-  - cbn [c11_legal ghost_step]. rewrite (c11_obs_model fl c s g sh Hs). cbn [andb]. apply IH. exact Hs.
+    cbn [mon_from fst snd].
+  - rewrite (scope_model fl c s g cl s' rr Hs He) in *.
+    destruct (fresh_ok fl c s cl); [|reflexivity].
+    apply andb_true_iff in Hwf. destruct Hwf as [Hsh Hwr].
+    cbn [c11_step_ok]. rewrite (c11_legal_model fl c s g cl s' rr Hs He), Hsh, (c11_obs_model fl c s' _ sh Hs').
+    cbn [andb]. apply IH; assumption.
+  - cbn [mint_scope] in *. cbn [ghost_step] in *.
+    apply andb_true_iff in Hwf. destruct Hwf as [Hsh Hwr].
+    cbn [c11_step_ok ghost_step].
+    assert (Hleg : c11_legal g cl Fail = true) by (destruct cl; try reflexivity; cbn in He; discriminate).
+    rewrite Hleg, Hsh, (c11_obs_model fl c s g sh Hs). cbn [andb]. apply IH; assumption.
 Qed.
 
 Theorem c11_check_accepts_model fl c now0 full l :
+  wf_run fl c (init now0) (ghost0 now0) l = true ->
   check (model_trace fl c now0 full l) = (0, 0, 0).
 Proof.
-  unfold check. rewrite diff_model_trace. unfold monitor, model_trace. cbn [t_now0 t_steps].
-  rewrite (mon_model_steps fl c l _ _ 0 (sim_init fl now0)). reflexivity.
+  intros Hwf. unfold check. rewrite diff_model_trace. unfold monitor, model_trace. cbn [t_fl t_now0 t_steps].
+  rewrite (mon_model_steps fl c l _ _ 0 (sim_init fl now0) Hwf). reflexivity.
 Qed.
